@@ -165,6 +165,19 @@ def prop_roundtrip(case):
     for lab, xi, li, ui in zip(labels, x, lb, ub):
         check_vector_entry("roundtrip", lab, byl[lab], float(xi), float(li), float(ui))
         check_bracket("roundtrip", lab, float(xi), float(li), float(ui))
+    # a refused conversion (sizes that do not match) leaves the parameters as they were
+    if len(x) >= 1:
+        before = {lab: P.get(lab).value for lab in order}
+        for bad_labels, bad_x in ((labels, [float(v) + 0.25 for v in x][:-1]), (labels[:-1], [float(v) - 0.25 for v in x]), (labels, [float(v) + 0.5 for v in x] + [1.0])):
+            try:
+                P.set_from_label_and_value_arrays(bad_labels, bad_x)
+            except ValueError:
+                pass
+            else:
+                check(False, "roundtrip.size_mismatch_accepted", lambda: f"{len(bad_labels)} labels, {len(bad_x)} values")
+            after = {lab: P.get(lab).value for lab in order}
+            check(all(same_float(before[lab], after[lab]) for lab in order), "roundtrip.refused_conversion_changed_parameters",
+                  lambda: f"{len(bad_labels)} labels, {len(bad_x)} values: " + ", ".join(f"{lab}: {before[lab]!r} -> {after[lab]!r}" for lab in order if not same_float(before[lab], after[lab])))
     # set -> vector -> set
     with expect_ok("roundtrip.set"):
         P.set_from_label_and_value_arrays(labels, x)
@@ -197,6 +210,8 @@ def prop_roundtrip(case):
     check_values_against_case("roundtrip.moved", "after setting a moved vector", lambda lab: P.get(lab).value, moved, exprs)
     kinds, nontrivial = kinds_tags(case)
     tags = [f"kind:{k}" for k in kinds] + [f"construct:{case['construct']}"]
+    if case.get("group_defaults"):
+        tags.append(f"group_defaults_at_{['start', 'middle', 'end'][case['group_defaults']['pos']]}")
     if any(p.get("nn") and p["value"] == 1.0 and gp.is_free(p) for p in case["params"]):
         tags.append("non_negative_exactly_1")
     if any(gp.is_free(p) and (p["value"] == p["min"] or p["value"] == p["max"]) for p in case["params"]):
